@@ -71,6 +71,11 @@ def job_rt(item):
     S.absorb_engine(eng)
     return S
 
+def task(item):
+    if item[0] == 'rt': return job_rt(item[1:])
+    from . import serdejob as SJ
+    return SJ.conv_job(PROG, item[1], item[2], item[3], seed=SEED)
+
 def confirm_m(c, nd, nr):
     obs = {'dev': nd.request(c['request']), 'release': nr.request(c['request'])}
     if c['key'].endswith('panic'): return any(o.get('kind') in ('panic', 'abort', 'hang') for o in obs.values()), obs
@@ -81,15 +86,16 @@ def run(run):
     PROG = run.program(); XP.init_decls(PROG); SEED = run.seed
     run.native('dev')
     XP.run_translator_validation(run, PROG, every=8 if run.tier == 'quick' else 1)
-    jobs = [(t, run.deadline) for t in TEMPLATES]
-    run_jobs(run, jobs, job_rt, 'mirsym: JSON text -> from_json (visitor MIR) -> @ -> to_string (Serialize MIR) -> re-read vs the denoted value')
+    jobs = [('rt', t, run.deadline) for t in TEMPLATES] + [('conv', e, d, run.deadline) for e in ('try_from_ref', 'try_from_owned') for d in (1, 2)]
+    run_jobs(run, jobs, task, 'mirsym: JSON text -> from_json (visitor MIR) -> @ -> to_string (Serialize MIR) -> re-read vs the denoted value')
     run.cands = [c for c in run.cands if c['key'].startswith('c08:') or c['key'].startswith('c05:')]
     run.confirm_all(confirm_m); run.cands = []
     run_kani_only(run, ['c08_value_roundtrip_scalars', 'c08_deserialize_visitor_scalars'],
         bounds={'scalars (K)': 'every serde_json::Number (any u64, any i64, any finite f64), null, booleans: TryFrom<&Value>, TryFrom<Value>, Serialize for Variable (to_value) and the Deserialize visitor (from_value) keep the exact Number '
                                '(integer stays integer, u64 > i64::MAX stays unsigned, double bit-identical)',
+                'Value conversions (M)': 'Variable::try_from(&Value) and try_from(Value) on solver-chosen serde_json::Value trees (depth 1 with fully symbolic numbers, depth 2 structure): the result is the value itself (order, nesting, keys, exact numbers)',
                 'documents (M)': f'{len(TEMPLATES)} document templates (arrays, nested containers, duplicate keys incl. three occurrences, non-ASCII and empty keys, surrounding whitespace) whose holes range over {len(SCALARS)} scalar/number spellings '
                                  '(integer limits of u64/i64 and one beyond, 2^53+1, subnormal, 1e308, -0, exponent forms, escapes, surrogate pairs) and symbolic Unicode scalar values inside strings'},
         outside=['decimal -> double accuracy and number printing are executed inside serde_json/ryu (modelled, not verified): the "15 significant digits / 2 ulp" part of the property is NOT claimed',
-                 'documents outside the templates; conversions of containers to/from serde_json::Value (scalars only, Kani)'],
+                 'documents outside the templates; Value trees deeper than 2 / wider than 2'],
         assumes=['mirsym/jsonmodel.py stands for serde_json\'s reader, models.tree_text for its writer (both differentially tested against native serde_json on every run of C09)', 'Rc::drop_slow and fmt::format are stubbed in the Kani harnesses'], keyprefix='c08')
